@@ -84,3 +84,11 @@ def nontrivial(c):
     x = np.asarray(c["x"])
     hi = c["xmax"] if c["xmax"] is not None else x.max()
     return int((x <= hi).sum()) >= 3
+
+
+LEAN_EXTRA = ["PystogVerif.Props.C14Fortran"]
+
+
+def correspond_extra(seed, tier):
+    import fortrancorr
+    return fortrancorr.run(seed, tier, lorch_only=True, tag="fortrancorr-c14")
